@@ -85,6 +85,33 @@ func runC17(p *Prog, l *Ledger) {
 		}
 	}
 
+	// likewise unexported plain functions that nothing calls, defers, spawns or takes as a value (a seam only tests use),
+	// and the function literals inside dead functions
+	called := map[*ssa.Function]bool{}
+	for _, f := range p.Funcs {
+		allInstrs(f, func(ins ssa.Instruction) {
+			if ci, ok := ins.(ssa.CallInstruction); ok {
+				if g := ci.Common().StaticCallee(); g != nil {
+					called[p.unwrap(g)] = true
+				}
+			}
+		})
+	}
+	for _, f := range p.Funcs {
+		if f.Parent() != nil || f.Signature.Recv() != nil || isExportedFunc(f) || p.addrTaken[f] || called[f] || f.Synthetic != "" || f.Name() == "init" || f.Name() == "main" || strings.HasPrefix(f.Name(), "init#") {
+			continue
+		}
+		dead[f] = true
+		l.Note("unreachable unexported function ignored: %s", p.Key(f))
+	}
+	for _, f := range p.Funcs {
+		for par := f.Parent(); par != nil; par = par.Parent() {
+			if dead[par] {
+				dead[f] = true
+			}
+		}
+	}
+
 	byLoc := map[string][]*c17Access{}
 	locField := map[string]FieldRef{}
 	nacc := 0
@@ -165,6 +192,11 @@ func runC17(p *Prog, l *Ledger) {
 					}
 					if a.a.Write && parts[2] != "excl" {
 						bad = append(bad, fmt.Sprintf("%s: %s while holding the mutex only shared (RLock)", at, kind))
+					}
+				case strings.HasPrefix(g, "outer:"):
+					parts := strings.Split(g, ":")
+					if a.a.Write && parts[2] != "excl" {
+						bad = append(bad, fmt.Sprintf("%s: %s while the enclosing object's mutex is held only shared", at, kind))
 					}
 				case strings.HasPrefix(g, "owner:"):
 					parts := strings.Split(g, ":")
@@ -298,6 +330,16 @@ func c17Guard(a *c17Access) string {
 			return "own:" + m + ":shared"
 		}
 	}
+	// part of a locked object: the access is made in a helper that was handed a by-value part of an object whose mutex the
+	// caller holds at every call site (lockset translation names it <part>.^.<mutex>)
+	for k, ex := range a.held {
+		if strings.HasPrefix(k, bap+".^") {
+			if ex {
+				return "outer:" + k[len(bap)+1:] + ":excl"
+			}
+			return "outer:" + k[len(bap)+1:] + ":shared"
+		}
+	}
 	// owner: the object is reached as <owner>.<field>, and the owner's mutex is held
 	if n := len(a.baseAP.Fields); n >= 1 {
 		ownerT := a.baseAP.Fields[n-1].Type
@@ -321,6 +363,13 @@ func c17Guard(a *c17Access) string {
 func c17VerifyOwner(p *Prog, locks *LockInfo, ofr FieldRef) string {
 	if token_IsExported(ofr.Name) {
 		return "the field " + ofr.Name + " is exported"
+	}
+	if st := structOf(ofr.Type); st != nil && ofr.Index < st.NumFields() {
+		if _, byValue := st.Field(ofr.Index).Type().Underlying().(*types.Struct); byValue {
+			// a part held by value lives inside its owner: it cannot be shared with another owner, and every access
+			// through the owner was checked against the owner's mutex where it is made
+			return ""
+		}
 	}
 	owner := ofr.Type
 	writesState := map[*ssa.Function]bool{}
